@@ -4,6 +4,7 @@ import (
 	"runtime"
 	"sync/atomic"
 	"syscall"
+	"time"
 	"unsafe"
 )
 
@@ -71,6 +72,7 @@ type gstate struct {
 	started bool
 	done    bool
 	blocked bool
+	soft    bool // the wait in progress is one that time may end (channel, select, condition)
 	site    int
 	prio    int
 	yields  uint64
@@ -90,6 +92,7 @@ var (
 	changeAt      []uint64
 	trace         []TraceEntry
 	blockedStreak int
+	blockedSince  int64 // wall time (ns) at which the current streak of failed tries began
 	overrun       bool
 	deadlock      bool
 	lockWaits     uint64
@@ -419,6 +422,7 @@ func yield(site int) {
 		return
 	}
 	gs[g].blocked = false
+	gs[g].soft = false
 	gs[g].yields++
 	blockedStreak = 0
 	step++
@@ -481,7 +485,19 @@ func yield(site int) {
 // mutex failed: the turn goes to somebody else, who may release the lock.
 //
 //go:norace
-func YieldBlocked(site int) {
+func YieldBlocked(site int) { yieldBlocked(site, false) }
+
+// YieldWaiting is YieldBlocked for waits that something other than a caller may
+// end (a channel a timer will feed, a condition, a select): the turn goes to
+// somebody else in the same way, but when every live caller is waiting this is
+// a deadlock only if it lasts (two seconds of wall time); alone, the caller lets
+// a little time pass between tries.
+//
+//go:norace
+func YieldWaiting(site int) { yieldBlocked(site, true) }
+
+//go:norace
+func yieldBlocked(site int, soft bool) {
 	if !simActive {
 		// outside a simulation the TryLock loop degrades to a spin; be polite
 		syscall.Syscall(syscall.SYS_SCHED_YIELD, 0, 0, 0)
@@ -511,8 +527,33 @@ func YieldBlocked(site int) {
 		switchTo(next, site)
 		return
 	}
+	gs[g].soft = soft
+	if blockedStreak == 0 {
+		blockedSince = time.Now().UnixNano()
+	}
 	blockedStreak++
 	if blockedStreak > 4*ng+4 {
+		anySoft := false
+		for i := 0; i < ng; i++ {
+			if !gs[i].done && gs[i].soft {
+				anySoft = true
+			}
+		}
+		if anySoft && time.Now().UnixNano()-blockedSince < 2_000_000_000 {
+			// somebody waits for something time may bring: not a verdict yet
+			ts := syscall.Timespec{Nsec: 50_000}
+			syscall.Nanosleep(&ts, nil)
+			next := nextRunnable(g, false)
+			if next < 0 {
+				next = nextRunnable(g, true)
+			}
+			if next < 0 {
+				return
+			}
+			step++
+			switchTo(next, site)
+			return
+		}
 		deadlock = true
 		var at []int
 		for i := 0; i < ng; i++ {
@@ -531,8 +572,10 @@ func YieldBlocked(site int) {
 		next = nextRunnable(g, true)
 	}
 	if next < 0 {
-		// alone and blocked on a lock nobody live holds
-		blockedStreak += ng
+		// alone and blocked on something nobody live holds
+		if !soft {
+			blockedStreak += ng
+		}
 		return
 	}
 	step++
